@@ -90,3 +90,29 @@ def same_seq(a, b):
     a = list(a)
     b = list(b)
     return len(a) == len(b) and all(x is y for x, y in zip(a, b))
+
+
+# ---------------------------------------------------------------------------
+# read - mutate - read again: every query must be correct immediately after any mutation, so the
+# query checks are repeated on the *same node objects* after structural changes and renames
+
+def mutate_tree(tree, op):
+    """Apply one mutation to a list of nodes (labels = list index).  Refused moves are simply skipped."""
+    from anytree import TreeError
+
+    n = len(tree)
+    kind = op[0]
+    try:
+        if kind == "move":
+            tree[op[1] % n].parent = tree[op[2] % n]
+        elif kind == "detach":
+            tree[op[1] % n].parent = None
+        elif kind == "reverse":
+            node = tree[op[1] % n]
+            node.children = list(reversed(node.children))
+        elif kind == "rename":
+            setattr(tree[op[1] % n], op[3] if len(op) > 3 else "name", op[2])
+        else:
+            raise ValueError(kind)
+    except TreeError:
+        pass
